@@ -129,9 +129,10 @@ type unit struct {
 	hasTime bool // raw: the body carries a time column
 	rowFmt  bool // WAL entry is row format
 	intMeas bool // raw entry whose "m" is not a string
+	rawBody []byte // raw unit: the request body at acknowledgement time
 	names   map[string]bool
 	req     *areq
-	write   func(b *ingest.ArrowBuffer) error
+	write   func(b *ingest.ArrowBuffer, conn []byte) error
 	entry   int
 	liveT   map[int64]int64 // rid -> live timestamp (filled by the crash-free run)
 }
@@ -190,7 +191,7 @@ func (fe *frontend) unitsOf(q *areq) ([]*unit, error) {
 				u.names[n] = true
 			}
 			r := rec
-			u.write = func(b *ingest.ArrowBuffer) error { return b.WriteColumnarRecord(ctx, db, r) }
+			u.write = func(b *ingest.ArrowBuffer, _ []byte) error { return b.WriteColumnarRecord(ctx, db, r) }
 			us = append(us, u)
 		}
 		return us, nil
@@ -214,7 +215,11 @@ func (fe *frontend) unitsOf(q *areq) ([]*unit, error) {
 					return nil, err
 				}
 				rec := r
-				u.write = func(b *ingest.ArrowBuffer) error { return b.Write(ctx, db, []interface{}{rec}) }
+				u.write = func(b *ingest.ArrowBuffer, conn []byte) error {
+					rc := *rec // RawPayload aliases the connection's request buffer, as in the fasthttp handler
+					rc.RawPayload = aliasInto(conn, rec.RawPayload)
+					return b.Write(ctx, db, []interface{}{&rc})
+				}
 				us = append(us, u)
 			} else {
 				u := &unit{kind: "pcol", db: db, rowFmt: true, req: q, hasTime: true, names: map[string]bool{}}
@@ -224,7 +229,7 @@ func (fe *frontend) unitsOf(q *areq) ([]*unit, error) {
 					u.names[n] = true
 				}
 				rec := r
-				u.write = func(b *ingest.ArrowBuffer) error { return b.Write(ctx, db, []interface{}{rec}) }
+				u.write = func(b *ingest.ArrowBuffer, _ []byte) error { return b.Write(ctx, db, []interface{}{rec}) }
 				us = append(us, u)
 			}
 		case *ingest.TypedColumnarRecord:
@@ -233,7 +238,11 @@ func (fe *frontend) unitsOf(q *areq) ([]*unit, error) {
 				return nil, err
 			}
 			rec := r
-			u.write = func(b *ingest.ArrowBuffer) error { return b.Write(ctx, db, []interface{}{rec}) }
+			u.write = func(b *ingest.ArrowBuffer, conn []byte) error {
+				rc := *rec
+				rc.RawPayload = aliasInto(conn, rec.RawPayload)
+				return b.Write(ctx, db, []interface{}{&rc})
+			}
 			us = append(us, u)
 		case *models.Record:
 			if _, ok := groups[r.Measurement]; !ok {
@@ -288,7 +297,7 @@ func (fe *frontend) unitsOf(q *areq) ([]*unit, error) {
 		for i, r := range recs {
 			items[i] = r
 		}
-		u.write = func(b *ingest.ArrowBuffer) error { return b.Write(ctx, db, items) }
+		u.write = func(b *ingest.ArrowBuffer, _ []byte) error { return b.Write(ctx, db, items) }
 		us = append(us, u)
 	}
 	return us, nil
@@ -300,7 +309,7 @@ func rawUnit(db string, q *areq, raw []byte) (*unit, error) {
 	if err := msgpack.Unmarshal(raw, &m); err != nil {
 		return nil, err
 	}
-	u := &unit{kind: "raw", db: db, req: q, names: map[string]bool{}}
+	u := &unit{kind: "raw", db: db, req: q, names: map[string]bool{}, rawBody: append([]byte(nil), raw...)}
 	mtxt := "o"
 	switch mv := m["m"].(type) {
 	case string:
@@ -324,6 +333,56 @@ func rawUnit(db string, q *areq, raw []byte) (*unit, error) {
 	u.rids = ridsOf(cols["rid"])
 	u.op = "u raw " + hexs(db) + " " + mtxt + " " + renderCols(cols)
 	return u, nil
+}
+
+// aliasInto copies the body into the connection's (re-used) request buffer and returns the aliasing slice.
+func aliasInto(conn []byte, body []byte) []byte {
+	if len(body) > len(conn) {
+		return append([]byte(nil), body...)
+	}
+	copy(conn, body)
+	return conn[:len(body):len(body)]
+}
+
+// scribble: the next request on the connection overwrites the buffer.
+func scribble(conn []byte, salt int) {
+	for i := range conn {
+		conn[i] = byte(0xA5 ^ i ^ salt)
+	}
+}
+
+// checkWalPayloads: every persisted raw entry must hold exactly the bytes the request had when it was
+// acknowledged (envelope + body).
+func checkWalPayloads(c *vh.Ctx, m *machine, us []*unit) {
+	e := 0
+	for _, f := range m.walFiles() {
+		path := filepath.Join(m.walDir, f)
+		b, err := os.ReadFile(path)
+		if err != nil {
+			continue
+		}
+		offs, _ := framedEntries(path)
+		start := int64(wal.WALFileHeaderSize)
+		for _, end := range offs {
+			if e >= len(us) {
+				return
+			}
+			u := us[e]
+			if u.kind == "raw" {
+				got := b[start+int64(wal.WALEntryHeaderSize) : end]
+				want := append([]byte{wal.WALEnvelopeMarker, byte(len(u.db) >> 8), byte(len(u.db))}, u.db...)
+				want = append(want, u.rawBody...)
+				if string(got) != string(want) {
+					c.Fail("wal-payload-aliased:AppendRawWithMeta",
+						fmt.Sprintf("WAL entry %d of an acknowledged raw (top-level MessagePack columnar) write does not hold the bytes the request had when it was acknowledged: the request buffer was re-used (next request on the connection) while the WAL writer goroutine was lagging, and the file holds %d bytes that differ from the acknowledged envelope+body (checksum in the entry header was computed at append time)", e, len(got)),
+						fmt.Sprintf("%s ;; hold the WAL writer goroutine (it waits for w.mu), POST the request, overwrite the connection buffer as the next request does, release the writer, let it drain; expected payload hex %s, file holds %s", u.req.descr, vh.Hex(want), vh.Hex(got)))
+					c.Tag("mon:wal-payload-aliased")
+				}
+			}
+			start = end
+			e++
+		}
+	}
 }
 
 // ---- machine / process incarnations
@@ -639,8 +698,14 @@ func runScenario(c *vh.Ctx, us []*unit, sc scen) (res result) {
 		return res
 	}
 	entryOfRid := map[int64]int{}
+	conn := make([]byte, 1<<16) // the connection's request buffer (fasthttp re-uses it for the next request)
 	for i, u := range us {
-		if err := u.write(p.buf); err != nil {
+		// the WAL writer goroutine lags: it is held until the next request has overwritten the buffer
+		p.w.VerifC05Pause()
+		err := u.write(p.buf, conn)
+		scribble(conn, i)
+		p.w.VerifC05Resume()
+		if err != nil {
 			res.err = fmt.Errorf("unit %d rejected by the live path: %v", i, err)
 			p.kill()
 			return res
@@ -663,6 +728,7 @@ func runScenario(c *vh.Ctx, us []*unit, sc scen) (res result) {
 		p.kill()
 		return res
 	}
+	checkWalPayloads(c, m, us)
 	if sc.live {
 		stage = "live-flush"
 		if err := p.flushClose(); err != nil {
